@@ -57,3 +57,21 @@ __attribute__((noinline)) int poll_hlist_entry_2(struct cds_hlist_head *head, in
 			if (it->key == key)
 				return 1;
 }
+
+/* publishers: a node is initialised, published, and modified again.  rcu_assign_pointer (inside the list primitives) is a release: the
+ * compiler may not treat the initialising store as dead across the publication, nor move it below.  Checked structurally: both stores
+ * are emitted, in this order (e4/c18_loops.py). */
+struct pitem { struct cds_list_head l; struct cds_hlist_node h; int val; };
+
+__attribute__((noinline)) void pub_list_add(struct pitem *it, struct cds_list_head *head)
+{ it->val = 0x11; cds_list_add_rcu(&it->l, head); it->val = 0x22; }
+__attribute__((noinline)) void pub_list_add_tail(struct pitem *it, struct cds_list_head *head)
+{ it->val = 0x11; cds_list_add_tail_rcu(&it->l, head); it->val = 0x22; }
+__attribute__((noinline)) void pub_list_replace(struct pitem *it, struct cds_list_head *old)
+{ it->val = 0x11; cds_list_replace_rcu(old, &it->l); it->val = 0x22; }
+__attribute__((noinline)) void pub_hlist_add_head(struct pitem *it, struct cds_hlist_head *head)
+{ it->val = 0x11; cds_hlist_add_head_rcu(&it->h, head); it->val = 0x22; }
+__attribute__((noinline)) void pub_assign_pointer(struct pitem *it, struct pitem **slot)
+{ it->val = 0x11; rcu_assign_pointer(*slot, it); it->val = 0x22; }
+__attribute__((noinline)) void pub_set_pointer(struct pitem *it, struct pitem **slot)
+{ it->val = 0x11; rcu_set_pointer(slot, it); it->val = 0x22; }
